@@ -42,6 +42,10 @@ def main():
     finally:
         sh('git -C /repo checkout -- .')
         sh('git -C /repo clean -fdq -- board core uci engine_core engine_app pgn lichess_api lichess_bot')
+        # the checks regenerated lean/Inkayaku/Gen from the patched tree: bring it back to the unchanged tree at once
+        # (other work in the Lean project must not see the seeded constants)
+        sh('cd %s/harness && cargo build --offline --bins && ./target/debug/dumpconsts ../lean/Inkayaku/Gen' % VERIF)
+        sh('python3 %s/tools/gen_c04.py %s/lean; python3 %s/tools/serde_schema.py /repo %s/lean/Inkayaku/Gen/LichessSchema.lean' % (VERIF, VERIF, VERIF, VERIF))
     if os.path.exists(meta_p):
         meta.setdefault('detection', {}).update(results)
         meta['detected'] = any(r['exit'] == 1 and r['violation_lines'] for r in meta['detection'].values())
